@@ -455,7 +455,7 @@ pub fn enumerate_items(max_nodes: usize, leaves: &[Item], container_widths: &[u8
 
 /// Widen every head to a random admissible width.
 pub fn widen(rng: &mut Rng, i: &Item) -> Item {
-    let mut pw = |rng: &mut Rng, v: u64| *rng.pick(widths_from(min_width(v)));
+    let pw = |rng: &mut Rng, v: u64| *rng.pick(widths_from(min_width(v)));
     match i {
         Item::UInt { v, .. } => Item::UInt { w: pw(rng, *v), v: *v },
         Item::NInt { v, .. } => Item::NInt { w: pw(rng, *v), v: *v },
